@@ -27,34 +27,56 @@ from ..pysym import real, integer, to_z3
 from .c16 import model_db, modpath, label, families, case_name, PRESCRIBED
 
 NL_MODELS = ['clpt_donnell_bc1', 'clpt_donnell_bc2', 'clpt_donnell_bc3', 'clpt_donnell_bc4',
-             'clpt_sanders_bc1', 'clpt_sanders_bc2', 'clpt_sanders_bc3', 'clpt_sanders_bc4']
+             'clpt_sanders_bc1', 'clpt_sanders_bc2', 'clpt_sanders_bc3', 'clpt_sanders_bc4',
+             'iso_clpt_donnell_bc2', 'iso_clpt_donnell_bc3', 'fsdt_donnell_bc1', 'fsdt_donnell_bcn']
 
 
 def model_job(led, model):
+    from .c16 import iso_F
     db = model_db()
+    is_iso = model.startswith('iso_')
+    is_fsdt = 'fsdt' in model
+    gen = model[4:] if is_iso else model
     nlmod = modpath(db[model]['non-linear'])
+    gen_nlmod = modpath(db[gen]['non-linear'])       # source of cffint and (for the iso_ models) of kG, as in ConeCyl
     commons = modpath(db[model]['commons'])
     kin = 'sanders' if 'sanders' in model else 'donnell'
     it = NL.make_interp()
-    Fm = SK.sym_F(6)
-    F = [Fm[i, j] for i in range(6) for j in range(6)]
+    ne = 8 if is_fsdt else 6
+    Fm = SK.sym_F(ne)
+    F = [Fm[i, j] for i in range(ne) for j in range(ne)]
     sina, cosa = real('sina'), real('cosa')
-    func = 'cfstrain_' + kin
-    tab, info = SK.strain_table(it, commons, func)
     ftab, finfo = SK.field_table(it, commons)
-    consts = info['consts']
+    if is_fsdt:
+        # strain vectors: first-order-shear Donnell operator on the model's own cfuvw field (cfstrain_donnell of the fsdt
+        # commons files is laid out for another ordering of the axisymmetric amplitudes, see DESIGN 10.6)
+        consts = finfo['consts']
+        tab = {}
+        for key, (lv, fld) in ftab.items():
+            tab[key] = (lv, SK.strain_from_field({k: v for k, v in fld.items()}, 'fsdt_donnell', sina, cosa))
+    else:
+        func = 'cfstrain_' + kin
+        tab, info = SK.strain_table(it, commons, func)
+        consts = info['consts']
     spec = NL.Spec(it, tab, ftab, consts, F, kin, sina, cosa)
     c = spec.c
     facts = [to_z3(real('L')) > 0, to_z3(real('r2')) > 0, to_z3(P.atom('r')) > 0, to_z3(cosa) > 0,
-             to_z3(spec.m1) >= 1, to_z3(spec.m2) >= 1, to_z3(spec.n2) >= 1]
+             to_z3(spec.m1) >= 1, to_z3(spec.m2) >= 1, to_z3(spec.n2) >= 1,
+             to_z3(real('E11')) > 0, to_z3(real('h')) > 0, to_z3(real('nu')) > -1, to_z3(real('nu')) * 2 < 1]
     it.facts += facts
-    NL.install_slopes(it, nlmod, commons)
-    NL.install_stress(it, nlmod, 6)
+    iso_sub = None
+    if is_iso:
+        iso_sub = {k: (v if isinstance(v, P) else P.const(v)) for k, v in iso_F(real('E11'), real('nu'), real('h')).items()}
+    for mname in {nlmod, gen_nlmod}:
+        NL.install_slopes(it, mname, commons)
+        NL.install_stress(it, mname, ne)
+    nlmod_fint = gen_nlmod
+    check_state_functions(led, it, spec, model, commons, kin, ne, Fm)
     # ---- internal force -------------------------------------------------------------------------------------------
-    lab = label(nlmod, 'cffint')
+    lab = label(nlmod_fint, 'cffint')
     led.function(lab)
     out = NL.PointOut('fint', P.atom('size'))
-    res = NL.run_point_function(it, nlmod, 'cffint', F, c, out)
+    res = NL.run_point_function(it, nlmod_fint, 'cffint', F, c, out)
     alpha = P.atom('alpha')
     seen = set()
     for (k, v, mode, conds, line, lv) in out.stores:
@@ -67,6 +89,9 @@ def model_job(led, model):
         name = '%s/equals-dU-dc-minus-linear-part[(%d,%d)]' % (lab, fam, p)
         want = spec.expand(spec.fint_nl((fam, p))) * alpha
         code = trig.tnormal(v)
+        if is_iso:
+            # ConeCyl.calc_fint calls the general model's function with the isotropic F of _rebuild
+            want, code = trig.tsubs(want, iso_sub), trig.tsubs(code, iso_sub)
         ok, bad = K.compare(code, want)
         if ok:
             led.ok(name, lab)
@@ -87,16 +112,18 @@ def model_job(led, model):
     # ---- tangent ---------------------------------------------------------------------------------------------------
     sets = {}
     for integ, wrap in (('cfk0L', 'calc_k0L'), ('cfkG', 'calc_kG'), ('cfkLL', 'calc_kLL')):
-        labm = label(nlmod, integ)
+        src = gen_nlmod if (is_iso and integ == 'cfkG') else nlmod
+        NL.ISO_ARGS = (real('E11'), real('nu'), real('h')) if (is_iso and src == nlmod) else None
+        labm = label(src, integ)
         led.function(labm)
-        led.function(label(nlmod, wrap))
-        ok, ski, skw = NL.aligned(it, nlmod, integ, wrap)
+        led.function(label(src, wrap))
+        ok, ski, skw = NL.aligned(it, src, integ, wrap)
         nm = '%s/counter-runs-through-the-same-loops-and-guards-as-%s' % (labm, wrap)
         if not ok:
             led.fail(nm, labm, {'integrand skeleton': str(ski)[:600], 'wrapper skeleton': str(skw)[:600]}, signature='align:' + integ)
             return
         led.ok(nm, labm)
-        em, _ = NL.collect_matrix(it, nlmod, integ, wrap, F, c, consts)
+        em, _ = NL.collect_matrix(it, src, integ, wrap, F, c, consts, iso=(NL.ISO_ARGS if NL.ISO_ARGS else None))
         sets[integ] = [SK.canon_emission(h) for h in SK.decode_emissions(it, em, consts, spec.m1, spec.m2)]
     stress = {}
     eps_total = None
@@ -104,9 +131,9 @@ def model_job(led, model):
     M = SK.Matcher(it, consts, spec.m1, spec.m2, spec.n2, extra_facts=facts)
     # N_k = sum_b F[k,b] (E0_b + EL_b)
     eL = spec.nonlinear_strain(P.atom('WX'), P.atom('WT'), P.atom('V'))
-    for k in range(6):
+    for k in range(ne):
         tot = P({})
-        for b in range(6):
+        for b in range(ne):
             if isinstance(Fm[k, b], P):
                 tot = tot + Fm[k, b] * (P.atom('E0_%d' % b) + eL[b])
         stress['N_%d' % k] = tot
@@ -137,6 +164,8 @@ def model_job(led, model):
                     if case.subs:
                         want = trig.tsubs(want, case.subs)
                     want = trig.tnormal(want * alpha)
+                    if is_iso:
+                        want, code = trig.tsubs(want, iso_sub), trig.tsubs(code, iso_sub)
                     ok, bad = K.compare(code, want)
                     if ok:
                         led.ok(name, labt)
@@ -145,6 +174,130 @@ def model_job(led, model):
                                  signature='kT:%d,%d,%d,%d' % (famA, p, famB, q))
     led.solver_time('z3-index-cases', M.solver_time)
     led.solver_time('z3-feasibility', it.solver_time)
+    attach_replay(led, model)
+
+
+def check_state_functions(led, it, spec, model, commons, kin, ne, Fm):
+    """the contracts assumed for cfwx / cfwt / cfv / cfN inside the integrand functions, proved on the commons text:
+    slopes are the canonical state sums of the cfuvw field, cfstrain_* is E0 + EL of the specification, cfN = F * cfstrain"""
+    consts = spec.consts
+    x, t = real('x'), real('t')
+    m1, m2, n2 = spec.m1, spec.m2, spec.n2
+    r2, L = real('r2'), real('L')
+    m, _ = SK.load(it, commons)
+    saved = dict(it.contracts)
+    # cfwx, cfwt (and cfv): real bodies, compared with the state sums
+    wanted = {'cfwx': 'WX', 'cfwt': 'WT'}
+    if kin == 'sanders':
+        wanted['cfv'] = 'V'
+    for fn, state in wanted.items():
+        lab = label(commons, fn)
+        led.function(lab)
+        f = K.kernel_func(it, commons, fn)
+        sig = [nm for _, nm in m.pyx.sigs[fn]]
+        out = SK.Buf(fn)
+        args = []
+        for nm in sig:
+            args.append({'c': spec.c, 'm1': m1, 'm2': m2, 'n2': n2, 'xs': [x], 'ts': [t], 'size': 1, 'r2': r2, 'L': L}.get(nm, out))
+        res = it.explore(lambda: it.call(f, args, {}))
+        name = '%s/equals-the-state-sum-%s-of-the-cfuvw-field' % (lab, state)
+        if len(res) != 1 or res[0][1][0] != 'return' or 0 not in out.vals:
+            led.fail(name, lab, {'reason': 'no single returning path / nothing stored'}, signature='state:' + fn)
+            continue
+        got = out.vals[0] if isinstance(out.vals[0], P) else P.const(out.vals[0])
+        ok, bad = K.compare(trig.tnormal(got), trig.tnormal(spec.states[state]))
+        (led.ok(name, lab) if ok else led.fail(name, lab, {'difference': bad}, signature='state:' + fn))
+    # cfstrain_*: full (non-linear) strains against E0 + EL
+    func = 'cfstrain_' + kin
+    if func in m.g:
+        lab = label(commons, func)
+        led.function(lab)
+        NL.install_slopes(it, commons, commons)
+        f = K.kernel_func(it, commons, func)
+        es = SK.Buf('es')
+        it.abstract_locals[(func, 'r')] = 'r'
+        args = [spec.c, real('sina'), real('cosa'), real('tLA'), [x], [t], 1, r2, L, m1, m2, n2, None, 0, 0, 0, es]
+        res = it.explore(lambda: it.call(f, args, {}))
+        it.abstract_locals.pop((func, 'r'), None)
+        eL = spec.nonlinear_strain(P.atom('WX'), P.atom('WT'), P.atom('V'))
+        for k in range(6):      # the components that enter the membrane resultants used by cfkG (N = A eps + B kappa)
+            name = '%s/component-%d-equals-E0+EL' % (lab, k)
+            if len(res) != 1 or res[0][1][0] != 'return' or k not in es.vals:
+                led.fail(name, lab, {'reason': 'strain function did not return / component not stored',
+                                     'raised': [getattr(o[1], 'tname', None) for _, o in res]}, signature='strain:%d' % k)
+                continue
+            got = es.vals[k] if isinstance(es.vals[k], P) else P.const(es.vals[k])
+            got = trig.tnormal(got.subs({'WX': spec.states['WX'], 'WT': spec.states['WT'], 'V': spec.states.get('V', P({}))}))
+            want = spec.expand(P.atom('E0_%d' % k) + eL[k])
+            ok, bad = K.compare(got, want)
+            (led.ok(name, lab) if ok else led.fail(name, lab, {'difference': bad,
+                    'meaning': 'the strain function used for the stress resultants (cfN) is not E0 + EL of the field that the matrices are built for'},
+                    signature='strain:%d' % k))
+    # cfN = F * strains
+    if 'cfN' in m.g:
+        lab = label(commons, 'cfN')
+        led.function(lab)
+        def strain_contract(itp, a, kw):
+            for k in range(ne):
+                a[-1].sym_store(itp, P.const(k), P.atom('EPS_%d' % k), None)
+            return None
+        for nm in ('cfstrain_donnell', 'cfstrain_sanders'):
+            it.contracts[commons + '.' + nm] = strain_contract
+            if nm not in m.g:
+                continue
+        it.builtins['PTR'] = lambda arr, *idx: arr
+        f = K.kernel_func(it, commons, 'cfN')
+        Ns = SK.Buf('Ns')
+        Fl = [Fm[i, j] for i in range(ne) for j in range(ne)]
+        kinflag = 1 if kin == 'sanders' else 0
+        sig = [nm for _, nm in m.pyx.sigs['cfN']]
+        vals = {'c': spec.c, 'sina': real('sina'), 'cosa': real('cosa'), 'tLA': real('tLA'), 'xs': [x], 'ts': [t], 'size': 1, 'r2': r2, 'L': L, 'F': Fl,
+                'm1': m1, 'm2': m2, 'n2': n2, 'c0': None, 'm0': 0, 'n0': 0, 'funcnum': 0, 'Ns': Ns, 'NL_kinematics': kinflag}
+        real_strain = {nm: m.g.get(nm) for nm in ('cfstrain_donnell', 'cfstrain_sanders')}
+        for nm in real_strain:
+            if real_strain[nm] is not None:
+                m.g[nm] = pysym.ExternalFunc(commons + '.' + nm)
+        try:
+            res = it.explore(lambda: it.call(f, [vals[nm] for nm in sig], {}))
+        finally:
+            for nm, fo in real_strain.items():
+                if fo is not None:
+                    m.g[nm] = fo
+        for k in range(3):      # the integrand functions read the membrane resultants Ns[0..2] only
+            name = '%s/resultant-%d-equals-F-times-strain' % (lab, k)
+            want = P({})
+            for b in range(ne):
+                if isinstance(Fm[k, b], P):
+                    want = want + Fm[k, b] * P.atom('EPS_%d' % b)
+            got = Ns.vals.get(k)
+            if len(res) != 1 or res[0][1][0] != 'return' or got is None:
+                led.fail(name, lab, {'reason': 'cfN did not return / resultant not stored'}, signature='cfN:%d' % k)
+                continue
+            ok, bad = K.compare(got if isinstance(got, P) else P.const(got), want)
+            (led.ok(name, lab) if ok else led.fail(name, lab, {'difference': bad}, signature='cfN:%d' % k))
+    it.contracts.clear()
+    it.contracts.update(saved)
+
+
+def attach_replay(led, model):
+    """numeric replay on the installed package: kT against the central difference of calc_fint at a random state"""
+    fails = [kw for name, a, kw in getattr(led, 'calls', []) if name == 'fail' and kw.get('replay') is None]
+    if not fails:
+        return
+    from .. import pyreplay, shell_oracle as O
+    pay = dict(m1=2, m2=2, n2=2, r2=250., H=500., alphadeg=15., amp=2.0, laminaprop=[123.55e3, 8.708e3, 0.319, 5.695e3, 5.695e3, 5.695e3],
+               stack=[30, -30, 45], plyt=0.125, model=model)
+    if model.startswith('iso_'):
+        pay['iso'] = [71e3, 0.33, 2.]
+    try:
+        r = pyreplay.run_real(O.TANGENT, pay, timeout=1500)
+        rep = {'reproduced': bool(r.get('n_entries_off')) or (r.get('fint_at_zero_max') or 0) > 1e-9, 'input': pay, 'result': r,
+               'on': 'installed compiled package (not rebuilt from the .pyx under check)',
+               'real_function': 'ConeCyl.calc_kT vs central difference of ConeCyl.calc_fint'}
+    except Exception as e:
+        rep = {'reproduced': False, 'replay_error': repr(e)}
+    for kw in fails:
+        kw['replay'] = rep
 
 
 def body(led):
